@@ -13,8 +13,10 @@ From FRP Require Export Model.Router Model.RouteSpec.
 Open Scope Z_scope.
 
 (* RouteConfig: Domain, Location, RouteByHTTPUser as registered; CreateConnFn leads to [rc_owner];
-   id set by Register *)
-Record hp_rc := mkRc { rc_dom : bytes; rc_loc : bytes; rc_user : bytes; rc_owner : Z; rc_id : Z }.
+   id set by HTTPReverseProxy.Register (0 when the route was put into the Routers directly, as
+   server/group/http.go does); [rc_endpoint] = what ChooseEndpointFn returns (the group member's
+   proxy name; empty when there is no ChooseEndpointFn) *)
+Record hp_rc := mkRc { rc_dom : bytes; rc_loc : bytes; rc_user : bytes; rc_owner : Z; rc_id : Z; rc_endpoint : bytes }.
 
 (* req.URL.Host as set by Rewrite: {domain}.{b64 location}.{b64 routeByHTTPUser}.{b64 endpoint}.{id}
    (base64 and '.'-joining are injective on the components: modelled as the tuple), or req.Host
@@ -50,7 +52,12 @@ Inductive hp_op :=
 | HRegister (d l u : bytes) (owner : Z)
 | HUnRegister (d l u : bytes)
 | HBegin (rid : Z) (cconn proto : Z) (host path user : bytes) (dialed : bool)
-| HEnd (rid : Z).
+| HEnd (rid : Z)
+(* server/group/http.go, single-member groups: the first member of a group puts the route into the
+   shared Routers itself (HTTPGroup.Register: vhostRouter.Add, no registration number), the last
+   member leaving removes it (HTTPGroup.UnRegister: vhostRouter.Del, idle connections kept) *)
+| HGroupJoin (name d l u : bytes) (owner : Z)
+| HGroupLeave (d l u : bytes).
 
 (* remove the first idle connection with this key (Transport.getIdleConn) *)
 Fixpoint hp_take (k : hp_key) (l : list hp_conn) : option (hp_conn * list hp_conn) :=
@@ -73,7 +80,7 @@ Definition hp_step (st : hp_state) (o : hp_op) : option (hp_state * hp_out) :=
   | HRegister d l u owner =>
       (* routeCfg.id = atomic.AddUint64(&rp.registerSeq, 1); vhostRouter.Add(...) *)
       let id := hp_seq st + 1 in
-      match rt_add (hp_routes st) d l u (mkRc d l u owner id) with
+      match rt_add (hp_routes st) d l u (mkRc d l u owner id []) with
       | Some rs => Some (mkHp rs id (hp_idle st) (hp_busy st), HRegOk)
       | None => Some (mkHp (hp_routes st) id (hp_idle st) (hp_busy st), HRegConflict)
       end
@@ -84,7 +91,7 @@ Definition hp_step (st : hp_state) (o : hp_op) : option (hp_state * hp_out) :=
       let domain := rt_canon_or_empty host in
       (* injectRequestInfoToCtx: rc := GetRouteConfig(CanonicalHost(req.Host), req.URL.Path, user) *)
       let key := match rt_get_vhost (hp_routes st) domain path user with
-                 | Some r => let rc := rt_pay r in KRoute (rc_dom rc) (rc_loc rc) (rc_user rc) [] (rc_id rc)
+                 | Some r => let rc := rt_pay r in KRoute (rc_dom rc) (rc_loc rc) (rc_user rc) (rc_endpoint rc) (rc_id rc)
                  | None => KHost host
                  end in
       if dialed then
@@ -106,6 +113,13 @@ Definition hp_step (st : hp_state) (o : hp_op) : option (hp_state * hp_out) :=
       | Some (c, busy') => Some (mkHp (hp_routes st) (hp_seq st) (c :: hp_idle st) busy', HDone)
       | None => Some (st, HDone)
       end
+  | HGroupJoin name d l u owner =>
+      match rt_add (hp_routes st) d l u (mkRc d l u owner 0 name) with
+      | Some rs => Some (mkHp rs (hp_seq st) (hp_idle st) (hp_busy st), HRegOk)
+      | None => Some (st, HRegConflict)
+      end
+  | HGroupLeave d l u =>
+      Some (mkHp (rt_del (hp_routes st) d l u) (hp_seq st) (hp_idle st) (hp_busy st), HDone)
   end.
 
 (* run a history; None as soon as one step is not allowed *)
